@@ -34,9 +34,9 @@ var c20Sinks = []string{
 
 // c20Exempt: (entry, sink) pairs that legitimately carry no owner comparison, with the reason.
 var c20Exempt = map[string]string{
-	"cl.msgServer.CreatePosition -> cl.Keeper.UpdatePosition": "creates a new position for the signer (CreatePosition passes the signer as the owner of the fresh position id); no pre-existing object is touched",
+	"cl.msgServer.CreatePosition -> cl.Keeper.UpdatePosition":                                             "creates a new position for the signer (CreatePosition passes the signer as the owner of the fresh position id); no pre-existing object is touched",
 	"superfluidkeeper.msgServer.CreateFullRangePositionAndSuperfluidDelegate -> cl.Keeper.UpdatePosition": "creates a new full-range position for the signer; no pre-existing object is touched",
-	"lockupkeeper.msgServer.BeginUnlockingAll -> lockupkeeper.Keeper.BeginUnlock":                          "the locks are enumerated from the signer's own account index (checked separately: the iterator is built from the signer's address)",
+	"lockupkeeper.msgServer.BeginUnlockingAll -> lockupkeeper.Keeper.BeginUnlock":                         "the locks are enumerated from the signer's own account index (checked separately: the iterator is built from the signer's address)",
 }
 
 func runC20(c *rules.Ctx) {
@@ -101,6 +101,23 @@ func runC20(c *rules.Ctx) {
 	c.CallArg("x/lockup/keeper.msgServer.BeginUnlockingAll", "lockupkeeper.Keeper.BeginUnlockAllNotUnlockings", 2, "sdk.AccAddressFromBech32(msg.Owner)#0", "begin-unlock-all enumerates the signer's locks")
 	c.CallArg("x/lockup/keeper.Keeper.BeginUnlockAllNotUnlockings", "lockupkeeper.Keeper.AccountLockIterator", 3, "account", "…through the account-keyed index of that address")
 	c.CallArg("x/lockup/keeper.Keeper.BeginUnlockAllNotUnlockings", "lockupkeeper.Keeper.beginUnlockFromIterator", 2, "lockupkeeper.Keeper.AccountLockIterator(k,ctx,false,account)", "…and only those locks are unlocked")
+	// protected module accounts: mint/burn/force-transfer never touch them
+	tf := "x/tokenfactory/keeper.Keeper."
+	c.FailsWhen(tf+"mintTo", "tokenfactorykeeper.Keeper.IsModuleAcc(k,ctx,sdk.AccAddressFromBech32(mintTo)#0)", "minting to a protected module account fails", rules.GuardOpt{Before: "tokenfactorytypes.BankKeeper.MintCoins|tokenfactorytypes.BankKeeper.SendCoinsFromModuleToAccount"})
+	c.CallArg(tf+"mintTo", "tokenfactorytypes.BankKeeper.SendCoinsFromModuleToAccount", 3, "sdk.AccAddressFromBech32(mintTo)#0", "…and the checked address is the one credited")
+	c.FailsWhen(tf+"burnFrom", "tokenfactorykeeper.Keeper.IsModuleAcc(k,ctx,sdk.AccAddressFromBech32(burnFrom)#0)", "burning from a protected module account fails", rules.GuardOpt{Before: "tokenfactorytypes.BankKeeper.SendCoinsFromAccountToModule|tokenfactorytypes.BankKeeper.BurnCoins"})
+	c.CallArg(tf+"burnFrom", "tokenfactorytypes.BankKeeper.SendCoinsFromAccountToModule", 2, "sdk.AccAddressFromBech32(burnFrom)#0", "…and the checked address is the one debited")
+	c.Returns(tf+"IsModuleAcc", 0, "lookup(k.permAddrMap,sdk.AccAddress.String(addr))", "IsModuleAcc looks the address up in the protected-address set", "")
+	c.MapFieldFilled("x/tokenfactory/keeper.NewKeeper", "permAddrMap", "sdk.AccAddress.String(authtypes.PermissionsForAddress.GetAddress(authtypes.NewPermissionsForAddress(next(range(maccPerms))#1,_)))", "true", "the protected-address set holds the address of every module account handed to the keeper")
+	c.MapFieldFilled("x/tokenfactory/keeper.NewKeeper", "permAddrs", "next(range(maccPerms))#1", "authtypes.NewPermissionsForAddress(next(range(maccPerms))#1,_)", "the protected-module table holds every module account handed to the keeper")
+	c.Let("FROM", "sdk.AccAddressFromBech32(fromAddr)#0")
+	c.Let("TO", "sdk.AccAddressFromBech32(toAddr)#0")
+	c.Let("MODADDR", "sdk.ModuleAccountI.GetAddress(tokenfactorytypes.AccountKeeper.GetModuleAccount(k.accountKeeper,ctx,elem(has(next(range(k.permAddrs))#1))))")
+	c.FailsWhen(tf+"forceTransfer", "sdk.AccAddress.Equals({MODADDR},{FROM}) | sdk.AccAddress.Equals({FROM},{MODADDR})", "force-transfer out of a protected module account fails (checked for every protected module)", rules.GuardOpt{EveryIter: true})
+	c.FailsWhen(tf+"forceTransfer", "sdk.AccAddress.Equals({MODADDR},{TO}) | sdk.AccAddress.Equals({TO},{MODADDR})", "force-transfer into a protected module account fails (checked for every protected module)", rules.GuardOpt{EveryIter: true})
+	c.LoopOnlyFailExits(tf+"forceTransfer", "the scan over protected modules is left early only by failing")
+	c.CallArg(tf+"forceTransfer", "tokenfactorytypes.BankKeeper.SendCoins", 2, "{FROM}", "the checked source is the one debited")
+	c.CallArg(tf+"forceTransfer", "tokenfactorytypes.BankKeeper.SendCoins", 3, "{TO}", "the checked destination is the one credited")
 	c.R.Extra["auth_entries"] = len(entries)
 	c.R.Extra["auth_paths"] = len(paths)
 }
